@@ -5,6 +5,11 @@
 void *__real_malloc(size_t); void *__real_calloc(size_t, size_t); void *__real_realloc(void *, size_t); void __real_free(void *);
 
 int g_in_lib, g_led_active = 1;
+#ifdef OFH_FRAME_POINTERS
+#define SITE2() __builtin_return_address(1)
+#else
+#define SITE2() NULL      /* -O3 build: of_malloc() tail-calls malloc, so the first site already is the real caller */
+#endif
 uint64_t g_led_allocs, g_led_frees, g_led_bad_free;
 void *g_led_bad_free_ptr, *g_led_bad_free_site;
 
@@ -36,7 +41,7 @@ static ent_t *find(const void *p)
 	while (!EMPTY(g_tab[j])) { if (g_tab[j].p == p) return &g_tab[j]; j = (j + 1) & (g_cap - 1); }
 	return NULL;
 }
-static void add(void *p, size_t size, void *site)
+static void add(void *p, size_t size, void *site, void *site2)
 {
 	if (!p) return;
 	if ((g_n + 1) * 2 > g_cap) grow();
@@ -46,7 +51,8 @@ static void add(void *p, size_t size, void *site)
 	g_tab[j].gen = g_gen; g_unhanded++;
 	g_tab[j].p = p; g_tab[j].size = size; g_tab[j].site = site; g_tab[j].seq = ++g_seq; g_tab[j].handed = 0;
 	memset(g_tab[j].bt, 0, sizeof g_tab[j].bt);
-	if (g_led_deep) { void *bt[8]; int n = backtrace(bt, 8); for (int i = 2; i < n && i < 7; i++) g_tab[j].bt[i - 2] = bt[i]; }
+	g_tab[j].bt[0] = site2;
+	if (g_led_deep) { void *bt[8]; int n = backtrace(bt, 8); for (int i = 2; i < n && i < 6; i++) g_tab[j].bt[i - 1] = bt[i]; }
 	g_led_allocs++;
 }
 static int del(void *p)
@@ -79,13 +85,13 @@ size_t led_live(led_ent_t *out, size_t max)
 void *__wrap_malloc(size_t n)
 {
 	void *p = __real_malloc(n);
-	if (g_led_active && g_in_lib > 0 && !g_busy) { g_busy = 1; add(p, n, __builtin_return_address(0)); g_busy = 0; }
+	if (g_led_active && g_in_lib > 0 && !g_busy) { g_busy = 1; add(p, n, __builtin_return_address(0), SITE2()); g_busy = 0; }
 	return p;
 }
 void *__wrap_calloc(size_t a, size_t b)
 {
 	void *p = __real_calloc(a, b);
-	if (g_led_active && g_in_lib > 0 && !g_busy) { g_busy = 1; add(p, a * b, __builtin_return_address(0)); g_busy = 0; }
+	if (g_led_active && g_in_lib > 0 && !g_busy) { g_busy = 1; add(p, a * b, __builtin_return_address(0), SITE2()); g_busy = 0; }
 	return p;
 }
 void *__wrap_realloc(void *o, size_t n)
@@ -97,7 +103,7 @@ void *__wrap_realloc(void *o, size_t n)
 		g_busy = 0;
 		/* the session control block is calloc'ed and then realloc'ed inside library calls: tracked */
 		void *p = __real_realloc(tracked ? o : NULL, n);
-		g_busy = 1; add(p, n, __builtin_return_address(0)); g_busy = 0;
+		g_busy = 1; add(p, n, __builtin_return_address(0), SITE2()); g_busy = 0;
 		return p;
 	}
 	if (g_led_active && o && !g_busy) { g_busy = 1; del(o); g_busy = 0; }
